@@ -1160,6 +1160,13 @@ class Emitter:
     def virtual_candidates(self, cls, idx, sh):
         """functions in slot idx of every vtable whose class derives from cls (None: unknown class)"""
         known = cls is not None and cls in set(self.ti_class.values())
+        if known and self.opts.get('cha_loose'):
+            # (--cha-loose) a class whose LLVM type is just { vptr } is structurally identical to every other such interface
+            # (value_producer<T>, constant_dom, builtin, ...): llvm merges them, the static name says nothing
+            for pfx in ('class.', 'struct.'):
+                t = self.mod.named.get(pfx + cls)
+                if t is not None and t[0] == 'struct' and len(t[1]) == 1 and t[1][0][0] == 'ptr':
+                    known = False
         out = []
         for vn, (tinfo, fns) in sorted(self.vtables.items()):
             if idx >= len(fns) or fns[idx] is None:
@@ -2416,6 +2423,7 @@ def main():
     ap.add_argument('--candidate', action='append', default=[])
     ap.add_argument('--trap', action='append', default=[])
     ap.add_argument('--empty', action='append', default=[])
+    ap.add_argument('--cha-loose', action='store_true')
     a = ap.parse_args()
     ov = list(a.override)
     if a.override_file:
@@ -2428,7 +2436,7 @@ def main():
             cands.append((n, r, [x for x in ps.split(',') if x]))
         src, info = translate(text, dict(override=ov, erase_sigs=not a.no_erase_sigs, candidates=cands,
                                          traps=[re.compile(x) for x in a.trap],
-                                         empties=[re.compile(x) for x in a.empty]))
+                                         empties=[re.compile(x) for x in a.empty], cha_loose=a.cha_loose))
     except Unsupported as e:
         sys.stderr.write("ll2c: UNSUPPORTED: %s\n" % e)
         sys.exit(3)
